@@ -154,6 +154,7 @@ Proof.
   destruct (wm_f_get_level f level) as [lv |]; [| apply rpp_wpres_fault].
   pose proof (rpp_rd_chunk_frame (rp_w_io w)) as F1. destruct (rp_rd_chunk (rp_w_io w)) as [s1 rc1]. cbn [fst] in F1.
   destruct (negb (rc1 =? 0)); [apply rpp_wpres_io; exact F1 |].
+  match goal with |- context [if ?b then (rp_w_set_io w s1, t, f, offset, skip, 0) else _] => destruct b end; [apply rpp_wpres_io; exact F1 |].
   destruct (rp_lvl_load_index lv (rp_payload s1) (fm_payload_length (wm_ck_hdr (rp_cur s1)))) as [[[lv1 esb] complete] repr].
   set (s1a := if rp_index_sz d level <? fm_payload_length (wm_ck_hdr (rp_cur s1)) then rp_io_fault s1 RpF_heap
               else if negb repr then rp_io_fault s1 RpF_fmt else s1).
@@ -164,6 +165,8 @@ Proof.
   assert (G2 : rpp_frame (rp_w_io w) s2).
   { eapply rpp_frame_trans; [exact F1 |]. eapply rpp_frame_trans; [exact F1a | exact F2]. }
   destruct (negb (rc2 =? 0)).
+  { apply rpp_wpres_io. destruct complete; [exact G2 |]. eapply rpp_frame_trans; [exact G2 | apply rpp_io_fault_frame]. }
+  match goal with |- context [if ?b || ?c then _ else _] => destruct (b || c) end.
   { apply rpp_wpres_io. destruct complete; [exact G2 |]. eapply rpp_frame_trans; [exact G2 | apply rpp_io_fault_frame]. }
   destruct (rp_lvl_load_summary (sg_dtype d) lv1 (rp_payload s2) (fm_payload_length (wm_ck_hdr (rp_cur s2)))) as [lv2 repr2].
   set (s2a := if rp_summary_sz d <? fm_payload_length (wm_ck_hdr (rp_cur s2)) then rp_io_fault s2 RpF_heap
